@@ -314,3 +314,7 @@ def check(ctx, rep):
     shared.unused_params(ctx, rep, "C18.PARAM", ["spec_classes.types.alias"], floor=5)
     from .c02 import pt_rule
     pt_rule(ctx, rep, "C18.COPYSET")
+    from .c01 import w_rule
+    w_rule(ctx, rep, "C18.COW", lambda h, t: h.family in ("sequence", "mapping", "set"))
+    from .c08 import peer_rule
+    peer_rule(ctx, rep, "C18.PEER")    # reset_<alias>() works on a deep copy (a forwarded deletion must not reach the original)
